@@ -401,5 +401,16 @@ def rule_i6(repo):
     return res
 
 
+def rule_i7(repo):
+    """Substitution under binders counts binders: every recursion over terms that carries the number of
+    binders passed (incr_boundvars, subst_bound, is_open, abstract_over) must enter the body of an
+    abstraction with that number plus one and the parts of an application with it unchanged.  Off by one,
+    variables bound inside a substituted term are shifted as if they were loose, and are captured."""
+    from ..traverse import depth_rule
+    return depth_rule(repo, 'C03.I7', 'recursions that count binders pass depth + 1 into an abstraction and the depth unchanged into an application',
+                      [TERM], 8, 'beta_conv / forall_elim / substitution then return a term with another meaning: '
+                      '%y. (%P. %w. P c) (%z. f z y) normalises to %y. %w. f w y')
+
+
 def rules(repo):
-    return [rule_i1(repo), rule_i2(repo), rule_i3(repo), rule_i4(repo), rule_i5(repo), rule_i6(repo)]
+    return [rule_i1(repo), rule_i2(repo), rule_i3(repo), rule_i4(repo), rule_i5(repo), rule_i6(repo), rule_i7(repo)]
